@@ -399,6 +399,12 @@ fn main() {
     if !f.is_fn && rules.iter().any(|r| r == "R10pub") {
         // widen field visibility of an extracted struct (Verus treats a struct with private
         // fields as opaque in contracts); visibility has no run-time meaning
+        if let Ok(tr) = syn::parse_str::<syn::ItemTrait>(&work) {
+            if let syn::Visibility::Restricted(r) = &tr.vis {
+                let rg = range_of(r);
+                work = apply_edits(&work, vec![Edit { range: rg, rep: "pub".into(), rule: "R10pub".into() }]);
+            }
+        }
         if let Ok(en) = syn::parse_str::<syn::ItemEnum>(&work) {
             if let syn::Visibility::Restricted(r) = &en.vis {
                 let rg = range_of(r);
